@@ -54,6 +54,7 @@ def build_hooked(name):
     out = os.path.join(hv.HBIN, "hv-%shook" % name)
     with hv.Lock("go" + hv.ALT):
         cmd = ["go", "build", "-tags", "verif c09c10hook", "-o", out]
+        cmd[2:2] = hv.cover_flags()
         if hv.ALT:
             cmd.append("-modfile=" + os.path.join(hv.BUILD, "alt-" + hv.ALT, "go.mod"))
         rc, o, e = hv.sh(cmd + ["./cmd/" + name], cwd=hd, env=hv.GOENV, timeout=1800)
